@@ -186,6 +186,7 @@ func pairProjects() []struct {
 	add("include-other-content", drv.Project{Root: "root.jst", Files: map[string]string{"root.jst": "JSIGHT 0.3\nINCLUDE inc.jst\n", "inc.jst": "TYPE @other any\n"}})
 	add("include-missing", drv.Project{Root: "root.jst", Files: map[string]string{"root.jst": "JSIGHT 0.3\nINCLUDE inc.jst\n"}})
 	add("regex", drv.Single("JSIGHT 0.3\nTYPE @r regex\n  /[a-z]{4}[0-9]{2}/\nGET /r\n  200 regex\n    /x{2,5}/\n"))
+	add("regex-twice", drv.Single("JSIGHT 0.3\nTYPE @r1 regex\n  /[a-z]{4}[0-9]{2}/\nTYPE @r2 regex\n  /[a-z]{4}[0-9]{2}/\nTYPE @u\n  {\n    \"a\": @r1,\n    \"b\": @r2\n  }\nGET /r\n  200 @u\nPOST /r\n  Request @r2\n  200 [@r2]\n"))
 	add("tags", drv.Single("JSIGHT 0.3\nTAG @g\nGET /a\n  Tags @g\n  200 any\nGET /b/c\n  200 any\nURL /rpc\n  Protocol json-rpc-2.0\n  Method m\n    Tags @g\n"))
 	add("enum", drv.Single("JSIGHT 0.3\nENUM @e\n  [1, 2]\nTYPE @t\n  {\n    \"a\": 1 // {enum: @e}\n  }\n"))
 	add("macro", drv.Single("JSIGHT 0.3\nMACRO @m\n(\n  200 any\n)\nGET /m\n  PASTE @m\n"))
@@ -417,6 +418,39 @@ func runC03(c *fw.Ctx) {
 	inproc := func(p drv.Project) string {
 		o, _ := dir.Run(p, drv.Options{FixedSeed: true}, true)
 		return hash(digestOutcome(o, ""))
+	}
+	// (b') the same without any option: "the same options" includes none (the regex example generator
+	// has a constant seed of its own then)
+	soloPlain := func(p drv.Project) string {
+		b, _ := json.Marshal(map[string]interface{}{"proj": p, "opt": drv.Options{}})
+		cmd := exec.Command(self, "solo", string(b))
+		cmd.Env = append(os.Environ(), "GOMAXPROCS=2")
+		out, err := cmd.Output()
+		if err != nil {
+			return "solo-failed: " + err.Error()
+		}
+		return strings.TrimSpace(string(out))
+	}
+	for i := range ps {
+		if !c.Next() {
+			continue
+		}
+		c.Count("evaluations", 1)
+		plain := func() string {
+			o, _ := dir.Run(ps[i].proj, drv.Options{}, true)
+			return hash(digestOutcome(o, ""))
+		}
+		a, b := plain(), plain()
+		if a != b {
+			c.Violate("differs-between-calls", "C03:repeat-no-options:"+ps[i].name, "project "+ps[i].name+" without options gives different results when processed twice in one process", map[string]interface{}{"project": ps[i].proj})
+			continue
+		}
+		d1, d2 := soloPlain(ps[i].proj), soloPlain(ps[i].proj)
+		if d1 != d2 {
+			c.Violate("differs-between-processes", "C03:process-no-options:"+ps[i].name, "project "+ps[i].name+" without options gives different results in two fresh processes", map[string]interface{}{"project": ps[i].proj})
+		} else if d1 != a && !strings.HasPrefix(d1, "solo-failed") {
+			c.Violate("differs-between-processes", "C03:process-vs-inproc-no-options:"+ps[i].name, "project "+ps[i].name+" without options gives another result in a fresh process than in this one", map[string]interface{}{"project": ps[i].proj})
+		}
 	}
 	for i := range ps {
 		if !c.Next() {
